@@ -50,6 +50,14 @@ def open_findings(prop):
     return [k for k in parse_known() if k["status"] == "open" and k["property"] == prop]
 
 
+def atomic_write(path, text):
+    os.makedirs(os.path.dirname(path), exist_ok=True)
+    tmp = path + ".tmp%d" % os.getpid()
+    with open(tmp, "w") as f:
+        f.write(text)
+    os.replace(tmp, path)
+
+
 def write_evidence(prop, tier, level, coverage, assumptions, wall_s, violations):
     os.makedirs(EVIDENCE, exist_ok=True)
     ev = {
